@@ -183,6 +183,22 @@ def blank_preserved_texts(L, r):
 
 
 @defect
+def two_proposed_and_two_absent_ilis(L, r):
+    # "in" and "" are not ILIs: repeating them is no W302
+    L['synsets'][0]['ili'] = 'in'
+    L['synsets'][0]['ili_definition'] = {'text': 'another proposal', 'meta': None}
+    L['synsets'][1]['ili'] = ''
+
+
+@defect
+def instance_hypernym_other_pos(L, r):
+    # only plain hypernyms are compared by W501
+    L['synsets'][3]['relations'] = [{'relType': 'instance_hypernym', 'target': L['synsets'][2]['id'], 'meta': None}]
+    L['synsets'][2].setdefault('relations', []).append(
+        {'relType': 'instance_hyponym', 'target': L['synsets'][3]['id'], 'meta': None})
+
+
+@defect
 def blank_example(L, r):
     L['synsets'][r.randrange(4)].setdefault('examples', []).append({'text': r.choice(['', '  ']), 'meta': None})
 
